@@ -43,35 +43,39 @@ Deviations == {"D1_late_pool", "D2_discount_pool", "D3_ctl_after_shutdown", "D4_
 Ctl == 1
 AllHosts == Hosts \cup {Ctl}
 
-VARIABLES known,      \* [Hosts -> BOOLEAN]    host object is in cluster.metadata
-          removed,    \* [Hosts -> BOOLEAN]    host was removed from the metadata (a removed host is not added again here)
-          up,         \* [Hosts -> {"T","F","N"}]   Host.is_up (N = None, not known)
-          handling,   \* [Hosts -> BOOLEAN]    Host._currently_handling_node_up
-          recon,      \* [Hosts -> {"none","live","canc"}]  Host._reconnection_handler (and its _cancelled)
-          pools,      \* [Sessions -> [AllHosts -> {"none","open","shut"}]]  Session._pools[host] (shut = is_shutdown)
-          grp,        \* <<h, kind, n>> -> [left, ok]: futures still awaited by on_up / on_add and "all results true so far"
-          exec,       \* bag of tasks submitted to cluster.executor and not yet run
-          sched,      \* bag of entries waiting in cluster.scheduler
-          lbpLive,    \* hosts the load-balancing policy considers live
+VARIABLES cs,         \* everything the driver's code paths transform, as one record (fields below)
           mode,       \* [Hosts -> {"ok","refuse","auth"}]  what happens to a new connection to the node
           peers,      \* subject hosts listed by the control node's system.peers
           budget,     \* environment events so far
           phase,      \* 0 running, 1 after Cluster.shutdown closed scheduler+control connection, 2 sessions shut, 3 executor shut
-          ctl,        \* "open", "broken" (defunct, still referenced), "closed" : ControlConnection._connection
-          ctlPend,    \* a control connection reconnect has connected and refreshed, _set_new_connection is still to come
-          leaked,     \* open connections nothing refers to any more
           req,        \* [Sessions -> {"none","refused","pending"}]  execute_async issued after shutdown() returned
-          emL, emP,   \* notifications emitted by the last action: listeners, load-balancing policy (sequences of <<kind, h>>)
-          act,        \* the last action (replay does not depend on TLC's labels)
-          \* history variables (not compared with the code)
-          lsnUp, lsnAdd,   \* listener on_up / on_add notifications for h since it last went from up to down
-          lbpUp,           \* policy on_up notifications for h since its last policy on_down / on_remove
-          authFailed,      \* an attempt to connect to h ended in AuthenticationFailed
-          wentDown,        \* h went from up to down at least once
-          badRecon         \* a reconnector was started for a removed host
+          act         \* the last action (replay does not depend on TLC's labels)
 
-vars == <<known, removed, up, handling, recon, pools, grp, exec, sched, lbpLive, mode, peers, budget, phase, ctl,
-          ctlPend, leaked, req, emL, emP, act, lsnUp, lsnAdd, lbpUp, authFailed, wentDown, badRecon>>
+vars == <<cs, mode, peers, budget, phase, req, act>>
+
+(* The fields of cs (one record so that a code path is evaluated once per transition). *)
+known    == cs.known      \* [Hosts -> BOOLEAN]    host object is in cluster.metadata
+removed  == cs.removed    \* [Hosts -> BOOLEAN]    host was removed from the metadata (a removed host is not added again here)
+up       == cs.up         \* [Hosts -> {"T","F","N"}]   Host.is_up (N = None, not known)
+handling == cs.handling   \* [Hosts -> BOOLEAN]    Host._currently_handling_node_up
+recon    == cs.recon      \* [Hosts -> {"none","live","canc"}]  Host._reconnection_handler (and its _cancelled)
+pools    == cs.pools      \* [Sessions -> [AllHosts -> {"none","open","shut"}]]  Session._pools[host] (shut = is_shutdown)
+grp      == cs.grp        \* <<h, kind, n>> -> [left, ok]: futures still awaited by on_up / on_add and "all results true so far"
+exec     == cs.exec       \* bag of tasks submitted to cluster.executor and not yet run
+sched    == cs.sched      \* bag of entries waiting in cluster.scheduler
+lbpLive  == cs.lbpLive    \* hosts the load-balancing policy considers live
+ctl      == cs.ctl        \* "open", "broken" (defunct, still referenced), "closed" : ControlConnection._connection
+ctlPend  == cs.ctlPend    \* a control connection reconnect has connected and refreshed, _set_new_connection is still to come
+leaked   == cs.leaked     \* open connections nothing refers to any more
+emL      == cs.emL        \* notifications emitted by the last action to listeners (sequence of <<kind, h>>)
+emP      == cs.emP        \* ... to the load-balancing policy
+\* history fields (not compared with the code)
+lsnUp      == cs.lsnUp       \* listener on_up notifications for h since it last went from up to down
+lsnAdd     == cs.lsnAdd      \* listener on_add notifications for h since it last went from up to down
+lbpUp      == cs.lbpUp       \* policy on_up notifications for h since its last policy on_down / on_remove
+authFailed == cs.authFailed  \* an attempt to connect to h ended in AuthenticationFailed
+wentDown   == cs.wentDown    \* h went from up to down at least once
+badRecon   == cs.badRecon    \* a reconnector was started for a removed host
 
 -----------------------------------------------------------------------------
 (* Tasks and scheduler entries: one record shape for all of them. *)
@@ -104,20 +108,9 @@ SessShut    == phase >= 2       \* Session.is_shutdown of every session
 ExecShut    == phase >= 3
 
 -----------------------------------------------------------------------------
-(* The part of the state the code paths below transform, as a record, so that *)
-(* the paths compose the way the methods call each other.                     *)
-Cur == [known |-> known, removed |-> removed, up |-> up, handling |-> handling, recon |-> recon, pools |-> pools,
-        grp |-> grp, exec |-> exec, sched |-> sched, lbpLive |-> lbpLive, ctl |-> ctl, ctlPend |-> ctlPend,
-        leaked |-> leaked, emL |-> <<>>, emP |-> <<>>,
-        lsnUp |-> lsnUp, lsnAdd |-> lsnAdd, lbpUp |-> lbpUp, authFailed |-> authFailed, wentDown |-> wentDown,
-        badRecon |-> badRecon]
-
-Commit(st) ==
-    /\ known' = st.known /\ removed' = st.removed /\ up' = st.up /\ handling' = st.handling /\ recon' = st.recon
-    /\ pools' = st.pools /\ grp' = st.grp /\ exec' = st.exec /\ sched' = st.sched /\ lbpLive' = st.lbpLive
-    /\ ctl' = st.ctl /\ ctlPend' = st.ctlPend /\ leaked' = st.leaked /\ emL' = st.emL /\ emP' = st.emP
-    /\ lsnUp' = st.lsnUp /\ lsnAdd' = st.lsnAdd /\ lbpUp' = st.lbpUp /\ authFailed' = st.authFailed
-    /\ wentDown' = st.wentDown /\ badRecon' = st.badRecon
+(* The code paths below take and return such a record, so that they compose the way the methods call each other. *)
+Cur == [cs EXCEPT !.emL = <<>>, !.emP = <<>>]
+Commit(x) == cs' = x
 
 Submit(st, t) == IF ExecShut THEN st ELSE [st EXCEPT !.exec = BagAdd(@, t)]     \* executor.submit (raises once shut down; callers log / drop)
 
@@ -332,28 +325,26 @@ InitExec == LET S == {TAddPool(Max(Sessions), h, "init", 0) : h \in Known0 \ Ign
 (* The state right after cluster.connect() returned for every session with a queueing executor: the last session *)
 (* has its first pool, the others are still initial-connect futures.                                              *)
 Init ==
-    /\ known = [h \in Hosts |-> h \in Known0]
-    /\ removed = [h \in Hosts |-> FALSE]
-    /\ up = [h \in Hosts |-> IF h \in Known0 \ Ignored THEN "T" ELSE "N"]
-    /\ handling = [h \in Hosts |-> FALSE]
-    /\ recon = [h \in Hosts |-> "none"]
-    /\ pools = InitPools
-    /\ grp = <<>>
-    /\ exec = InitExec
-    /\ sched = EmptyBag
-    /\ lbpLive = Known0 \cup {Ctl}
+    /\ cs = [known |-> [h \in Hosts |-> h \in Known0],
+             removed |-> [h \in Hosts |-> FALSE],
+             up |-> [h \in Hosts |-> IF h \in Known0 \ Ignored THEN "T" ELSE "N"],
+             handling |-> [h \in Hosts |-> FALSE],
+             recon |-> [h \in Hosts |-> "none"],
+             pools |-> InitPools,
+             grp |-> <<>>,
+             exec |-> InitExec,
+             sched |-> EmptyBag,
+             lbpLive |-> Known0 \cup {Ctl},
+             ctl |-> "open", ctlPend |-> FALSE, leaked |-> 0,
+             emL |-> <<>>, emP |-> <<>>,
+             lsnUp |-> [h \in Hosts |-> 0], lsnAdd |-> [h \in Hosts |-> 0], lbpUp |-> [h \in Hosts |-> 0],
+             authFailed |-> [h \in Hosts |-> FALSE], wentDown |-> [h \in Hosts |-> FALSE], badRecon |-> FALSE]
     /\ mode = [h \in Hosts |-> "ok"]
     /\ peers = Known0
     /\ budget = 0
     /\ phase = 0
-    /\ ctl = "open"
-    /\ ctlPend = FALSE
-    /\ leaked = 0
     /\ req = [s \in Sessions |-> "none"]
-    /\ emL = <<>> /\ emP = <<>>
     /\ act = A("Init", NoT, 0, 0, "")
-    /\ lsnUp = [h \in Hosts |-> 0] /\ lsnAdd = [h \in Hosts |-> 0] /\ lbpUp = [h \in Hosts |-> 0]
-    /\ authFailed = [h \in Hosts |-> FALSE] /\ wentDown = [h \in Hosts |-> FALSE] /\ badRecon = FALSE
 
 (* a worker thread runs one queued task *)
 Exec(t) ==
